@@ -723,9 +723,11 @@ def gen_search_trace(item):
     return {"events": events}
 
 
-def _fits(rows, k, pc, bg):
-    bm = 1
-    if bg:
+def _fits(rows, k, pc, bg, prob=False):
+    """Dom_ProductFits / Dom_ProbProductFits of the specification (TLC re-checks every event)"""
+    if prob:
+        bm = 1
+    elif bg:
         bm = max(max(q) for q in bg[0])
     else:
         bm = max(1, k)
@@ -850,7 +852,8 @@ def gen_profile_trace(item):
                 again = False
             if op == "again":
                 op, a = last_obs
-                if op in ("seqprob", "seqscore") and not _fits(cur["rows"], k, max(a[-1], 0), a[1] if op == "seqscore" else []):
+                if op in ("seqprob", "seqscore") and not _fits(cur["rows"], k, max(a[-1], 0),
+                                                               a[1] if op == "seqscore" else [], op == "seqprob"):
                     continue
             elif op == "getitem":
                 ix = _rand_index(rng, n)
@@ -876,7 +879,7 @@ def gen_profile_trace(item):
                     row = cur["rows"][i] if i < n else [0] * k
                     best = max(range(len(salph)), key=lambda j: row[j])
                     syms.append(salph[best] if rng.random() < 0.7 else rng.choice(salph))
-                if not _fits(cur["rows"], k, max(pc, 0), bg):
+                if not _fits(cur["rows"], k, max(pc, 0), bg, op == "seqprob"):
                     continue
                 a = [{"alph": salph, "sym": syms}, pc] if op == "seqprob" else [{"alph": salph, "sym": syms}, bg, pc]
             elif op == "eq":
@@ -1496,7 +1499,7 @@ def pytest_configure(config):
     def a_seqprob(self, sequence, pseudocount=0):
         S, p = _abs_seq(sequence), proj_profile(self)
         ok = (pc_ok(pseudocount) and p["alph"][:len(S["alph"])] == S["alph"]
-              and _fits(p["rows"], p["k"], max(int(pseudocount), 0), []))
+              and _fits(p["rows"], p["k"], max(int(pseudocount), 0), [], True))
         return [S, int(pseudocount)], ok
 
     method("sequence_probability", "seqprob", a_seqprob, lambda s, r: (proj_profile(s), _f(r)))
